@@ -22,7 +22,7 @@ Theorems (statements readable on their own):
 * `Full_aux_same_tag`, `Full_aux_pending`
                       those attributes are the ones of the lexeme being handled
 * `Full_elemAct_faithful`, `Full_endTagHandler_faithful`, `Full_unhash`, `Full_unhash_gen`   adapters are faithful
-* `Full_vec_loops_never_fail`, `Full_handleEnd_clean`; `Full_not_ctlClean`; `Full_no_panic_statement` (not proved); `C06_real_output`
+* `Full_vec_loops_never_fail`, `Full_handleEnd_clean`, `Full_descs_in_sync`, `Full_endTag_in_sync`; `Full_not_ctlClean`; `Full_no_panic_statement` (not proved); `C06_real_output`
 -/
 import LolHtml.Model.FullCtl
 import LolHtml.Lemmas.FullObs
@@ -527,6 +527,43 @@ theorem Full_handleEnd_clean (cfg : Cfg) (s : FullSt cfg) (hf : s.1.fault = none
   split at he'
   · simpa using he'.symm
   · simp at he'
+
+/-- **Full_descs_in_sync.** In every state of the real controller there is exactly one controller-owned
+descriptor (`end_tag_handler_idx`, `remove_content`) per open element of the selector VM — the glue's
+split of `ElementDescriptor` between the VM's stack items and `St.descs` is consistent: descriptors are
+pushed and popped together with the elements they belong to. -/
+theorem Full_descs_in_sync (cfg : Cfg) (s : FullSt cfg) :
+    match s.1.vm with
+    | some vm => s.1.descs.length = vm.stack.items.length
+    | none => s.1.descs = [] :=
+  s.2.sync
+
+/-- consequence: `handle_end_tag` never takes the glue's "descs out of sync" branch -/
+theorem Full_endTag_in_sync (cfg : Cfg) (s : FullSt cfg) (name : LocalName) (hf : s.1.fault = none) :
+    (endTag s.1 name).1.fault ≠ some (.panic "descs out of sync with the VM stack") := by
+  have hs := s.2.sync
+  unfold endTag
+  split
+  · rw [hf]; simp
+  · rename_i vm hv
+    have hl : s.1.descs.length = vm.stack.items.length := by simpa [Sync, hv] using hs
+    split
+    · simp [vmErr]
+    · rename_i vm' popped he
+      have hlen : vm'.stack.items.length + popped.length = vm.stack.items.length := by
+        unfold SelVM.Vm.execForEndTag at he
+        simp only [bind, Except.bind, pure, Except.pure] at he
+        split at he
+        · cases he
+        · rename_i r hr
+          simp only [Except.ok.injEq, Prod.mk.injEq] at he
+          rw [← he.1, ← he.2]
+          exact popUpTo_length _ _ _ _ (by rw [hr])
+      have : popped.length ≤ s.1.descs.length := by omega
+      simp only [this, if_true]
+      split
+      · simp [dispErr]
+      · rw [hf]; simp
 
 /-- **Full_not_ctlClean** (a finding about C15's hypothesis, not about the Rust). `CtlClean`, the
 hypothesis of `C15_no_panic`, quantifies over ALL controller states; the real controller cannot
